@@ -238,7 +238,78 @@ def run(ctx):
                 ctx.nontrivial("branch", u, tuple(v))
                 ctx.count("branch-flips/ok")
         ctx.layer("hash-probe", "observed" if probe.calls else "unreachable", hits=probe.calls)
+    if ctx.shard == 0 or not ctx.quick():
+        redeploy_layer(ctx, im)
     ctx.sample(dict(example=text_for(["10", "90"]), ramped=text_for(["20", "80"])))
+
+
+def redeploy_layer(ctx, im):
+    """A ramp is a configuration change, and a configuration change usually arrives with a restart: the old weights are
+    evaluated in this process, the new ones in fresh interpreters with other hash seeds.  A unit's position must not depend
+    on the process (several splitter fields: their order in the key is fixed by the published scheme, not by the iteration
+    order of a set), so the ramp stays monotone across the restart."""
+    import json
+    import shutil
+    import tempfile
+
+    from pyabv.props.c01 import run_child
+    from pyabv.run import jsonable, unjson
+
+    rnd = ctx.rnd
+    fields = ["uid", "sid", "zone", "app", "Uid"]
+
+    def text(vec):
+        groups = ", ".join(f'"g{i}" weighted {w}' for i, w in enumerate(vec))
+        return f'def r {{ salt: "ramp" splitters: {", ".join(fields)} return {groups} }}'
+
+    pairs = [(["10", "90"], ["20", "80"]), (["1", "1", "2"], ["2", "1", "1"]), (["5", "0", "95"], ["5", "10", "85"])]
+    units = [dict(uid=1000 + i, sid=f"s{i % 7}", zone=["eu", "us"][i % 2], app=i % 3, Uid=f"U{i}") for i in range(300 if ctx.quick() else 1500)]
+    progs = [t for pr in pairs for t in (text(pr[0]), text(pr[1]))]
+    tmp = tempfile.mkdtemp(prefix="pyabv-c10-")
+    try:
+        corpus_path = tmp + "/corpus.json"
+        with open(corpus_path, "w", encoding="ascii") as f:
+            json.dump({"programs": [dict(text=t, inputs=[jsonable(u) for u in units]) for t in progs]}, f, ensure_ascii=True)
+        here = {}
+        for t in progs[::2]:
+            c = im.construct(t)
+            if c[0] != "ok":
+                ctx.violation("construct-failed", dict(text=t, error=c[1:]), mechanism="C10/construct-failed")
+                return
+            here[t] = [index_of(im.call(c[1], u)) for u in units]
+        seeds = ["1", "2"] if ctx.quick() else [str(rnd.randrange(1, 2**31)) for _ in range(3)] + ["0"]
+        for hs in seeds:
+            res, err = run_child("redeploy-hashseed-" + hs, dict(PYTHONHASHSEED=hs), [], None, corpus_path, tmp)
+            if res is None:
+                ctx.set_inconclusive("C10 redeploy child failed: " + str(err)[:300])
+                return
+            rows = {}
+            for t, tr in zip(progs, res["transcript"]):
+                if "rows" not in tr:
+                    ctx.violation("construct-failed", dict(text=t, error=tr.get("construct"), process="child hashseed " + hs), mechanism="C10/construct-failed")
+                    return
+                rows[t] = [index_of(tuple(unjson(json.loads(r)))) for r in tr["rows"]]
+            for (v1, v2) in pairs:
+                t1, t2 = text(v1), text(v2)
+                for j, u in enumerate(units):
+                    ctx.evaluated(2)
+                    a, a2, b = here[t1][j], rows[t1][j], rows[t2][j]
+                    if a is None or a != a2:
+                        ctx.violation("position-depends-on-process", dict(text=t1, unit=u, this_process=a, restarted_process=a2, hashseed=hs),
+                                      mechanism="C10/position-depends-on-weights")
+                        return
+                    if b is None or b > a:
+                        part_a, part_b = bucket.Partition([frac(w) for w in v1]), bucket.Partition([frac(w) for w in v2])
+                        k = bucket.position("ramp", sorted(fields), u)
+                        if part_a.near_boundary(k, 1) or part_b.near_boundary(k, 1):
+                            continue
+                        ctx.violation("moved-to-later-group", dict(unit=u, before=v1, after=v2, index_before=a, index_after=b,
+                                                                   after_restart_with_hashseed=hs), mechanism="C10/ramp-not-monotone")
+                        return
+                    ctx.nontrivial("redeploy", hs, j, tuple(v1))
+            ctx.count("redeploys/ok")
+    finally:
+        shutil.rmtree(tmp, ignore_errors=True)
 
 
 def _check_golden(ctx, fam, uid, probe):
